@@ -106,3 +106,86 @@ func hasFP(t *smt.Term) bool {
 	}
 	return walk(t)
 }
+
+// goalDirected selects, among the hypotheses and the conjuncts of the path condition, those
+// connected to the goal through shared symbols (heap tokens excluded: every heap read shares them),
+// transitively; floating-point facts are dropped for goals without floating point.
+func goalDirected(o *Obligation) []*smt.Term {
+	syms := func(t *smt.Term) map[string]bool {
+		out := map[string]bool{}
+		seen := map[int]bool{}
+		var walk func(t *smt.Term)
+		walk = func(t *smt.Term) {
+			if seen[t.ID] {
+				return
+			}
+			seen[t.ID] = true
+			switch t.Op {
+			case "var":
+				if !(len(t.Name) >= 3 && (t.Name[:3] == "tok" || (len(t.Name) >= 4 && t.Name[:4] == "rtok"))) {
+					out["v:"+t.Name] = true
+				}
+			case "uf":
+				if !(len(t.Name) >= 2 && t.Name[:2] == "H!") {
+					out["f:"+t.Name] = true
+				}
+			}
+			for _, a := range t.Args {
+				walk(a)
+			}
+		}
+		walk(t)
+		return out
+	}
+	var cands []*smt.Term
+	cands = append(cands, o.Hyps...)
+	cands = append(cands, conjuncts(o.PC)...)
+	want := map[string]bool{}
+	fpFree := true
+	if o.Goal != nil {
+		want = syms(o.Goal)
+		fpFree = !hasFP(o.Goal)
+	}
+	if len(want) == 0 {
+		// a goal without symbols (e.g. "this path is infeasible"): everything may matter
+		return append(relevantHyps(o), o.PC)
+	}
+	cs := make([]map[string]bool, len(cands))
+	for i, c := range cands {
+		if fpFree && hasFP(c) {
+			cs[i] = map[string]bool{"!never": true}
+			continue
+		}
+		cs[i] = syms(c)
+	}
+	used := make([]bool, len(cands))
+	for changed := true; changed; {
+		changed = false
+		for i := range cands {
+			if used[i] {
+				continue
+			}
+			hit := len(cs[i]) == 0
+			for k := range cs[i] {
+				if want[k] {
+					hit = true
+					break
+				}
+			}
+			if hit {
+				used[i] = true
+				changed = true
+				for k := range cs[i] {
+					want[k] = true
+				}
+			}
+		}
+	}
+	var out []*smt.Term
+	for i, c := range cands {
+		if used[i] {
+			out = append(out, c)
+		}
+	}
+	return out
+}
